@@ -1,39 +1,111 @@
 package main
 
 import (
+	"context"
+	"flag"
+	"fmt"
 	"os"
-
-	"golang.org/x/tools/go/packages"
-	"golang.org/x/tools/go/ssa"
-	"golang.org/x/tools/go/ssa/ssautil"
+	"strings"
 )
 
+func nil2ctx() context.Context { return context.Background() }
+
+func LoadAllSpecsOverlay(repo, specDir string, overlay map[string][]byte) (*SpecSet, error) {
+	return LoadAllSpecs(repo, specDir)
+}
+
+func usage() {
+	fmt.Fprintln(os.Stderr, `usage: govc check <ID> [--tier quick|thorough] [--only substr] [--debug] [--dump]
+       govc inventory <ID>
+       govc replay <path>
+       govc selftest [ID]`)
+	os.Exit(2)
+}
+
 func main() {
-	cfg := &packages.Config{Mode: packages.LoadAllSyntax, Dir: "/repo", BuildFlags: []string{"-tags=verif"}}
-	pkgs, err := packages.Load(cfg, os.Args[1])
-	if err != nil {
-		panic(err)
+	if len(os.Args) < 2 {
+		usage()
 	}
-	prog, spkgs := ssautil.AllPackages(pkgs, ssa.NaiveForm|ssa.GlobalDebug)
-	prog.Build()
-	for _, p := range spkgs {
-		for _, name := range os.Args[2:] {
-			if f := p.Func(name); f != nil {
-				f.WriteTo(os.Stdout)
-			}
-			for _, m := range p.Members {
-				if t, ok := m.(*ssa.Type); ok {
-					for _, recv := range []interface{ }{t.Type()} {
-						_ = recv
-					}
-					ms := prog.MethodSets.MethodSet(ptrTo(t))
-					for i := 0; i < ms.Len(); i++ {
-						if fn := prog.MethodValue(ms.At(i)); fn != nil && fn.Name() == name {
-							fn.WriteTo(os.Stdout)
-						}
-					}
+	cmd := os.Args[1]
+	defer CleanScratch()
+	switch cmd {
+	case "check", "inventory":
+		if len(os.Args) < 3 {
+			usage()
+		}
+		fs := flag.NewFlagSet(cmd, flag.ExitOnError)
+		tier := fs.String("tier", os.Getenv("VERIF_TIER"), "quick|thorough")
+		only := fs.String("only", "", "only functions whose key contains this")
+		debug := fs.Bool("debug", false, "panic on engine errors")
+		dump := fs.Bool("dump", false, "keep and list SMT files")
+		timeout := fs.Int("timeout", 0, "per-query timeout (s)")
+		var overlays multiFlag
+		fs.Var(&overlays, "overlay", "path=replacementfile (in-memory patch of a /repo file)")
+		fs.Parse(os.Args[3:])
+		if *tier == "" {
+			*tier = "quick"
+		}
+		if *dump {
+			os.Setenv("GOVC_KEEP", "1")
+		}
+		o := CheckOpts{Prop: os.Args[2], Tier: *tier, Only: *only, Debug: *debug, Dump: *dump, Timeout: *timeout}
+		if len(overlays) > 0 {
+			o.Overlay = map[string][]byte{}
+			for _, ov := range overlays {
+				kv := strings.SplitN(ov, "=", 2)
+				b, err := os.ReadFile(kv[1])
+				if err != nil {
+					fmt.Fprintln(os.Stderr, err)
+					os.Exit(2)
 				}
+				o.Overlay[kv[0]] = b
+			}
+			o.NoEvid = true
+		}
+		if *only != "" {
+			o.NoEvid = true
+		}
+		res := RunCheck(o)
+		if cmd == "inventory" {
+			if res.LoadErr != nil {
+				fmt.Fprintln(os.Stderr, res.LoadErr)
+				CleanScratch()
+				os.Exit(1)
+			}
+			if err := writeInventory(o.Prop, res.Obls); err != nil {
+				fmt.Fprintln(os.Stderr, err)
+				os.Exit(1)
+			}
+			fmt.Printf("inventory for %s written (%d names)\n", o.Prop, len(inventoryNames(res.Obls)))
+			return
+		}
+		code := res.Report(o)
+		if len(res.Notes) > 0 && !o.Quiet && os.Getenv("GOVC_NOTES") != "" {
+			for _, n := range res.Notes {
+				fmt.Println("  note:", n)
 			}
 		}
+		CleanScratch()
+		os.Exit(code)
+	case "replay":
+		if len(os.Args) < 3 {
+			usage()
+		}
+		b, err := os.ReadFile(os.Args[2])
+		if err != nil {
+			fmt.Fprintln(os.Stderr, err)
+			os.Exit(2)
+		}
+		fmt.Print(string(b))
+		os.Exit(runReplayFile(os.Args[2]))
+	case "selftest":
+		os.Exit(runSelftest(os.Args[2:]))
+	default:
+		usage()
 	}
 }
+
+type multiFlag []string
+
+func (m *multiFlag) String() string     { return strings.Join(*m, ",") }
+func (m *multiFlag) Set(s string) error { *m = append(*m, s); return nil }
